@@ -117,7 +117,9 @@ def build(sp, kind, variant, max_iter, npseed):
             b = vec()
             x = vec()
         A = sp.linop.MatMul([n, 1], M) if variant % 2 == 0 else (lambda v: M @ v)
-        alg = sp.alg.ConjugateGradient(A, b, x, max_iter=max_iter, tol=0)
+        # preconditioners that return their input (object / view): the private copy of p must not depend on them
+        Pre = [None, (lambda v: v), sp.linop.Identity([n, 1]), (lambda v: v[:])][(variant + max_iter) % 4]
+        alg = sp.alg.ConjugateGradient(A, b, x, P=Pre, max_iter=max_iter, tol=0)
         return Inst(alg, "resid", "not_positive_definite", lambda: [alg.x])
     if kind == "PDHG":
         m = rng.randint(2, 5)
